@@ -163,6 +163,44 @@ def constructor_rejections_case(col):
     col.add({"sig": "native::rejections::constructor", "what": bad, "input": {"entry": "Model(..., grow=False)"}} if bad else None)
 
 
+def cycle_rejections_case(col):
+    """cyclic graphs are rejected whichever kind of edge closes the cycle: ordinary inputs, or the EVALUATION edge of a distribution
+    (functions tolerate None so that nothing else fails first); an acyclic control is accepted"""
+    import tensorflow_probability.substrates.jax.distributions as tfd_
+    tol = lambda v: 0.0 if v is None else jnp.sum(jnp.asarray(v)) * 0.0  # noqa: E731
+
+    def plain():
+        p = lsl.Calc(lambda *a: 0.0, _name="p")
+        q = lsl.Calc(lambda v: 0.0, p, _name="q")
+        p.set_inputs(q)
+        return lsl.GraphBuilder().add(q).build_model()
+
+    def at_cycle():
+        d = lsl.Dist(tfd_.Normal, loc=0.0, scale=1.0)
+        c = lsl.Calc(tol, d, _name="c")
+        d.at = c
+        return lsl.Model([c])
+
+    def self_density():
+        x = lsl.Var(0.5, lsl.Dist(tfd_.Normal, loc=0.0, scale=1.0), name="x")
+        x.value_node = lsl.Calc(tol, x.dist_node)
+        return lsl.GraphBuilder().add(x).build_model()
+
+    bad = None
+    for what, mk in (("cycle of calculations", plain), ("distribution evaluated at a function of its own log-density", at_cycle), ("variable whose value depends on its own log-density", self_density)):
+        try:
+            m = mk()
+            bad = f"{what}: accepted, update order {[n.name for n in m._sorted_nodes][:8]}"
+            break
+        except Exception:
+            pass
+    try:
+        ok = lsl.GraphBuilder().add(lsl.Var(lsl.Calc(tol, lsl.Var(1.0, name="a")), name="b")).build_model()
+    except Exception as e:
+        bad = bad or f"acyclic control rejected: {type(e).__name__}"
+    col.add({"sig": "native::rejections::cycle", "what": bad, "input": {"graphs": ["calc cycle", "at-edge cycle (bare Dist)", "at-edge cycle (variable)"]}} if bad else None)
+
+
 def foreign_variable_case(col):
     """a model-free variable must not be able to take over a node frozen in a model (bare Value node: no variable owns it)"""
     z = lsl.Value(np.float32(2.5), _name="z")
@@ -295,6 +333,10 @@ def bounded(tier, seed):
         col.add({**v_, "sig": "native::structure::targeted_update_order"} if v_ else None)
     except Exception as e:
         col.add({"sig": f"native::structure::exception::{type(e).__name__}", "what": str(e)[:200], "input": {"scenario": "targeted update order"}})
+    try:
+        cycle_rejections_case(col)
+    except Exception as e:
+        col.add({"sig": f"native::structure::exception::{type(e).__name__}", "what": str(e)[:200], "input": {"scenario": "cycle rejections"}})
     try:
         constructor_rejections_case(col)
     except Exception as e:
